@@ -192,7 +192,15 @@ func checkC17(c PairCase, r *rec.Rec) error {
 
 func genC17(t *rapid.T) PairCase {
 	if gen.Chance(t, "precision", 12) {
-		return genEqPair(t, []string{"list"}, true)
+		pc := genEqPair(t, []string{"list"}, true)
+		if _, ok := jdx.Precision(pc.Opts); ok && gen.Chance(t, "withMerge", 35) {
+			// MERGE together with SetPrecision, on null-free documents
+			a, b := stripNulls(val.MustParse(pc.A)), stripNulls(val.MustParse(pc.B))
+			if !val.IsVoid(a) && !val.IsVoid(b) {
+				return PairCase{A: val.JSON(a), B: val.JSON(b), Opts: "merge+" + pc.Opts}
+			}
+		}
+		return pc
 	}
 	if gen.Chance(t, "boundary", 20) {
 		pc := genEqPair(t, []string{"list", "set", "mset", "setkeys:id", "set+setkeys:id", "merge", "set+merge", "mset+merge"}, false)
@@ -247,13 +255,30 @@ func checkC17CLI(c CarrierCLICase, r *rec.Rec) error {
 	if !jdx.IsMerge(c.Opts) && res.Stdout != want {
 		return viol("%s prints\n%q\nthe v1 library renders\n%q", desc, res.Stdout, want)
 	}
-	writeFile(dir, "d", res.Stdout)
+	// the same run with -o over an existing, longer file
+	writeFile(dir, "d", strings.Repeat("stale content of an earlier run\n", 100))
+	resO := runCLI("jd-top", append(append([]string{"-o=d"}, flags...), "a", "b"), nil, dir)
+	if err := cliTrouble(resO); err != nil {
+		return err
+	}
+	if resO.Status != res.Status || resO.Stdout != "" || readFileOr(dir, "d") != res.Stdout {
+		return viol("%s with -o over an existing file: status %d, stdout %q, file %q; expected %q in the file only", desc, resO.Status, resO.Stdout, readFileOr(dir, "d"), res.Stdout)
+	}
 	resP := runCLI("jd-top", append(append([]string{"-p"}, flags...), "d", "a"), nil, dir)
 	if err := cliTrouble(resP); err != nil {
 		return err
 	}
 	if resP.Status != 0 {
 		return viol("%s: the printed diff does not apply with -p (status %d): %s\ndiff:\n%s", desc, resP.Status, resP.Stderr, res.Stdout)
+	}
+	// and the patched document written with -o over a longer file
+	writeFile(dir, "out", strings.Repeat("stale content of an earlier run\n", 100))
+	resPo := runCLI("jd-top", append(append([]string{"-p", "-o=out"}, flags...), "d", "a"), nil, dir)
+	if err := cliTrouble(resPo); err != nil {
+		return err
+	}
+	if resPo.Status != 0 || resPo.Stdout != "" || readFileOr(dir, "out") != resP.Stdout {
+		return viol("%s: -p -o over an existing file: status %d, stdout %q, file %q; expected %q in the file only", desc, resPo.Status, resPo.Stdout, readFileOr(dir, "out"), resP.Stdout)
 	}
 	got, err := v1.ReadJsonString(resP.Stdout)
 	if err != nil {
@@ -442,6 +467,37 @@ func genC18(t *rapid.T) PairCase {
 		return pc
 	}
 	a, b, _ := genListPairNasty(t)
+	if gen.Chance(t, "integerTwins", 6) {
+		// an object that holds a key spelled like a plain integer and gains,
+		// loses or changes a member spelled like the same integer differently
+		canon := gen.Pick(t, "canonKey", []string{"1", "0", "7", "10"})
+		other := map[string][]string{"1": {"01", "+1", "1.0", "1e0", "001"}, "0": {"-0", "00", "+0", "0.0"}, "7": {"007", "07", "+7"}, "10": {"010", "1e1", "+10"}}[canon]
+		twin := gen.Pick(t, "twinKey", other)
+		if gen.Chance(t, "negative", 20) {
+			canon, twin = "-"+canon, "-"+twin
+		}
+		ao, bo := map[string]val.V{canon: 1.0, "z": 0.0}, map[string]val.V{canon: 1.0, "z": 0.0}
+		switch gen.Int(t, "twinOp", 0, 3) {
+		case 0:
+			bo[twin] = 2.0
+		case 1:
+			ao[twin] = 2.0
+		case 2:
+			ao[twin], bo[twin] = 2.0, 3.0
+		default:
+			ao[twin] = 2.0
+			bo[twin] = 2.0
+			bo[canon] = 5.0
+		}
+		var av, bv val.V = ao, bo
+		switch gen.Int(t, "twinWrap", 0, 2) {
+		case 1:
+			av, bv = map[string]val.V{"o": ao}, map[string]val.V{"o": bo}
+		case 2:
+			av, bv = []val.V{0.0, ao}, []val.V{0.0, bo}
+		}
+		return PairCase{A: val.JSON(av), B: val.JSON(bv), Opts: "list"}
+	}
 	return PairCase{A: val.JSON(a), B: val.JSON(b), Opts: "list"}
 }
 
